@@ -280,6 +280,12 @@ def gen_case(rnd, kind):
             conj = [eq_ if g.pct(50) else (eq_[0], (), (lo, hi)), wrapped] + ([g.term(BOOL, 2)] if g.pct(30) else [])
         g.rnd.shuffle(conj)
         t = app("AND", *conj) if len(conj) > 1 else conj[0]
+    if rnd.random() < 0.1:
+        # the input already uses the names the rewriters would hand out next (FV0, FV1, ...)
+        from vf import names
+        from vf.refsem import reffv
+        cs = sorted(n for (n, ty_) in reffv(t) if not is_fun(ty_))
+        t = names.rename(t, {n: "FV%d" % i for i, n in enumerate(cs)})
     return t, g, g.cards()
 
 
